@@ -29,14 +29,15 @@ RowsS == UNION {[1..n -> [1..C -> Vals]] : n \in 0..MaxRows}
 Ops(s) ==
      {[op |-> "new", tgt |-> t, r |-> r] : t \in Names, r \in 0..MaxRows}
   \cup {[op |-> "resize", tgt |-> t, r |-> r] : t \in Names, r \in 0..MaxRows}
-  \cup {[op |-> "with_capacity", tgt |-> "a", r |-> r, cap |-> r + 1] : r \in 0..MaxRows}
+  \cup {[op |-> "with_capacity", tgt |-> "a", r |-> r, cap |-> c] : r \in 0..MaxRows, c \in {0, MaxRows + 1}}
   \cup {[op |-> "set", tgt |-> t, i |-> i, j |-> j, v |-> v] :
             t \in Names, i \in 1..MaxRows, j \in 1..C, v \in Vals \ {0}}
   \cup {[op |-> "fill", tgt |-> t, v |-> v] : t \in Names, v \in Vals \ {0}}
   \cup {[op |-> "clone_to_other", tgt |-> t] : t \in Names}
   \cup {[op |-> "clone_from", tgt |-> t] : t \in Names}
   \cup {[op |-> "iter_ends", tgt |-> "a", pat |-> p, mutable |-> mu] :
-            p \in {<<"b", "f", "b", "f">>, <<"f", "b", "b">>, <<"b", "b", "b", "b">>}, mu \in BOOLEAN}
+            p \in {<< <<"b", 0>>, <<"f", 0>>, <<"b", 0>>, <<"f", 0>> >>, << <<"f", 0>>, <<"b", 0>>, <<"b", 0>> >>,
+                   << <<"b", 1>>, <<"f", 0>>, <<"b", 0>> >>, << <<"f", 1>>, <<"b", 1>> >>, << <<"b", 2>>, <<"b", 0>> >>}, mu \in BOOLEAN}
   \cup {[op |-> "iter_mut_bump", tgt |-> "a"], [op |-> "iter", tgt |-> "a"],
         [op |-> "iter_rev", tgt |-> "a"], [op |-> "eq", tgt |-> "a"],
         [op |-> "reserve", tgt |-> "a", n |-> 2]}
@@ -111,17 +112,26 @@ IterOrder == /\ last.op.op = "iter" => last.obs = st.a
 \* iteration from both ends visits exactly the rows, each once: the rows taken from the front, followed by the rows
 \* taken from the back in reverse, are the first / last rows of the table; when the requests outnumber the rows, the
 \* whole table
+RECURSIVE PlainSumD(_, _)
+PlainSumD(f, k) == IF k = 0 THEN 0 ELSE PlainSumD(f, k - 1) + f[k]
+
 EndsExact ==
   last.op.op = "iter_ends" =>
     LET w  == last.obs.y
         pt == last.op.pat
-        fr == SelectSeq([k \in 1..Len(w) |-> <<pt[k], w[k]>>], LAMBDA x : x[1] = "f" /\ x[2] # <<>>)
-        bk == SelectSeq([k \in 1..Len(w) |-> <<pt[k], w[k]>>], LAMBDA x : x[1] = "b" /\ x[2] # <<>>)
         n  == Len(st.a)
-    IN /\ Len(fr) + Len(bk) + last.obs.n = n
-       /\ \A i \in 1..Len(fr) : fr[i][2] = st.a[i]
-       /\ \A i \in 1..Len(bk) : bk[i][2] = st.a[n + 1 - i]
-       /\ (Len(pt) >= n => last.obs.n = 0)
+        plain == \A q \in 1..Len(pt) : pt[q][2] = 0
+        fr == SelectSeq([q \in 1..Len(w) |-> <<pt[q][1], w[q]>>], LAMBDA x : x[1] = "f" /\ x[2] # <<>>)
+        bk == SelectSeq([q \in 1..Len(w) |-> <<pt[q][1], w[q]>>], LAMBDA x : x[1] = "b" /\ x[2] # <<>>)
+        skipped == PlainSumD([q \in 1..Len(pt) |-> IF w[q] # <<>> THEN pt[q][2] ELSE 0], Len(pt))
+    IN \* every yield is a row of the table, yields + skipped rows + remaining never exceed the rows, and with plain
+       \* requests the front yields are the first rows and the back yields the last rows in reverse
+       /\ \A q \in 1..Len(w) : w[q] = <<>> \/ \E i \in 1..n : w[q] = st.a[i]
+       /\ Len(fr) + Len(bk) + skipped + last.obs.n <= n
+       /\ plain => Len(fr) + Len(bk) + last.obs.n = n
+       /\ plain => \A i1 \in 1..Len(fr) : fr[i1][2] = st.a[i1]
+       /\ plain => \A i2 \in 1..Len(bk) : bk[i2][2] = st.a[n + 1 - i2]
+       /\ (plain /\ Len(pt) >= n) => last.obs.n = 0
 
 \* one REPLAY line per complete history
 EmitReplay == (Emit /\ Len(hist) = MaxDepth) => PrintT("REPLAY " \o ToJson(hist))
